@@ -101,6 +101,30 @@ def positive_under(r: Rat, positive_atoms) -> bool:
     return sn == sd
 
 
+def cell_positive_atoms(cell_name="unit_cell"):
+    """atoms that are positive for every geometrically valid cell held by the parameter `cell_name`: the edges, the sines of
+    the angles (each angle lies strictly between 0 and 180 degrees), the volume root W and pi"""
+    _uc, env = cell_env(cell_name)
+    env = ref_env_with(env, W="sqrt(1 - ca**2 - cb**2 - cg**2 + 2*ca*cb*cg)")
+    pos = {"pi"}
+    for nm in ("a", "b", "c", "sa", "sb", "sg", "W"):
+        pos |= env[nm].atoms()
+    return pos
+
+
+def domain_sign_policy(positive_atoms):
+    """sign policy of a property whose domain makes the listed atoms positive (cell edges, sines of cell angles, the volume
+    root): the sign of a difference is answered when the sign domain decides it (positive_under), and left open otherwise"""
+    def policy(d, node=None):
+        d = scalar(d)
+        if positive_under(d, positive_atoms):
+            return 1
+        if positive_under(-d, positive_atoms):
+            return -1
+        return None
+    return policy
+
+
 def skip_checks_policy(test, ev, env):
     """branch policy: `if CHECKS.activated:` -> not taken (the guarded block
     only contains check calls; that is C20's rule 3)"""
